@@ -18,7 +18,11 @@
 //! * `Rejected` (`hub_rejected`, C07): a history with many invalid / partly invalid commands; an observation
 //!   block after every command.
 //! * `SaveLoad` (`hub_saveload`, C05): history -> `SaveState` -> a second main process (other hash seed, fresh
-//!   recording workers) -> `LoadState` of that file -> `SaveState`.
+//!   recording workers) -> `LoadState` of that file -> `SaveState`. One plan in eight (`hub_saveload_large`, and
+//!   `hub_load_over_large` for C06) carries a `Bulk`: hundreds to thousands of small records, so that the state
+//!   file spans more than one / two (thorough: five, ten) of `load_state`'s 200000-byte read buffers with record
+//!   boundaries at varied offsets; the first main process receives them by `LoadState` of harness-written
+//!   chunks that each fit the buffer, the big file is the one it saves itself.
 //! * `Upgrade` (`hub_upgrade`, C05): history -> `generate_upgrade_data()` -> serde_json text -> a second main
 //!   process built by `CommandHub::from_upgrade_data` (descriptor numbers replaced by fresh socket pairs, the
 //!   workers keep their accumulated state) -> observations, one more command, `ListWorkers`.
@@ -108,6 +112,86 @@ pub struct HubCfgPlan {
     /// state files on disk (the writer fsyncs, ~10 ms each) instead of anonymous in-memory files
     #[serde(default)]
     pub real_files: bool,
+    /// many small records (`SaveLoad`: loaded into the first main process in chunks below the reader's buffer
+    /// before the history, so that the file it saves spans several read buffers; `LoadOver`: part of B)
+    #[serde(default)]
+    pub bulk: Option<Bulk>,
+}
+
+/// Hundreds to thousands of small, valid records (AddCluster / AddBackend / AddHttp(s)Frontend / AddTcpFrontend
+/// with short fields, ids padded by 0..=`pad_max` characters so that record lengths vary): a pure function of
+/// these fields. `target_bytes` is the size of the `\n\0` separated JSON the records make (every record is a
+/// few hundred bytes - far below half of `load_state`'s 200000-byte buffer, the precondition of CFG-S10).
+#[derive(Clone, Debug, Serialize, Deserialize, PartialEq)]
+pub struct Bulk {
+    pub seed: u64,
+    pub target_bytes: u64,
+    pub pad_max: u32,
+    /// 0 backends, 1 clusters, 2 frontends, 3 even
+    pub mix: u8,
+    /// size of the chunks in which `SaveLoad` feeds the records to the first main process
+    pub chunk_bytes: u64,
+}
+
+/// one record of a state file, as `write_requests_to_file` frames it
+pub fn state_file_record(n: usize, r: &Request) -> Vec<u8> {
+    let mut v = serde_json::to_vec(&sozu_command_lib::proto::command::WorkerRequest { id: format!("BULK-{n}"), content: r.clone() }).unwrap_or_default();
+    v.extend_from_slice(b"\n\0");
+    v
+}
+
+pub fn bulk_records(b: &Bulk) -> Vec<Request> {
+    use sozu_command_lib::proto::command::{AddBackend, Cluster, LoadBalancingParams, PathRule, RequestHttpFrontend, RequestTcpFrontend, SocketAddress};
+    let mut rng = Prng::derive(b.seed, "hubcfg/bulk");
+    let mut pad = |rng: &mut Prng| -> String { let n = rng.below(b.pad_max as u64 + 1); (0..n).map(|_| *rng.pick(b"abcdefghijklmnopqrstuvwxyz0123456789") as char).collect() };
+    let mut out: Vec<Request> = Vec::new();
+    let mut bytes = 0u64;
+    let mut addr = 0u32;
+    let mut ci = 0u32;
+    while bytes < b.target_bytes && out.len() < 40_000 {
+        let start = out.len();
+        let cid = format!("k{ci}{}", pad(&mut rng));
+        out.push(RequestType::AddCluster(Cluster { cluster_id: cid.clone(), sticky_session: rng.chance(1, 3), https_redirect: rng.chance(1, 4), load_balancing: rng.below(4) as i32, ..Default::default() }).into());
+        let (nb, nf, nt) = match b.mix { 0 => (3 + rng.below(6), rng.below(2), 0), 1 => (rng.below(2), 0, 0), 2 => (1, 2 + rng.below(4), rng.below(2)), _ => (1 + rng.below(3), 1 + rng.below(2), rng.below(2)) };
+        for j in 0..nb {
+            addr += 1;
+            let address: SocketAddress = if rng.chance(1, 4) { cfggen::sa(std::net::SocketAddr::new(std::net::IpAddr::V6(std::net::Ipv6Addr::new(0xfd00, 0, 0, 0, 0, 0, (addr >> 16) as u16, addr as u16)), 8000 + (addr % 1000) as u16)) } else { SocketAddress::new_v4(10, (addr >> 16) as u8, (addr >> 8) as u8, addr as u8, 8000 + (addr % 1000) as u16) };
+            out.push(RequestType::AddBackend(AddBackend {
+                cluster_id: cid.clone(), backend_id: format!("b{j}{}", pad(&mut rng)), address,
+                sticky_id: if rng.chance(1, 3) { Some(format!("s{j}")) } else { None },
+                load_balancing_parameters: if rng.chance(1, 3) { Some(LoadBalancingParams { weight: rng.below(100) as i32 }) } else { None },
+                backup: if rng.chance(1, 4) { Some(rng.chance(1, 2)) } else { None },
+            }).into());
+        }
+        for j in 0..nf {
+            let f = RequestHttpFrontend { cluster_id: Some(cid.clone()), address: SocketAddress::new_v4(127, 0, 0, 1, if rng.chance(1, 2) { 8080 } else { 8443 }), hostname: format!("h{ci}-{j}{}.test", pad(&mut rng)), path: PathRule::prefix(format!("/{}", pad(&mut rng))), position: 2, ..Default::default() };
+            out.push(if rng.chance(1, 2) { RequestType::AddHttpFrontend(f) } else { RequestType::AddHttpsFrontend(f) }.into());
+        }
+        for _ in 0..nt {
+            addr += 1;
+            out.push(RequestType::AddTcpFrontend(RequestTcpFrontend { cluster_id: cid.clone(), address: SocketAddress::new_v4(10, 200 + (addr >> 16) as u8 % 50, (addr >> 8) as u8, addr as u8, 1024 + (addr % 60000) as u16), tags: Default::default() }).into());
+        }
+        for (k, r) in out[start..].iter().enumerate() { bytes += state_file_record(start + k, r).len() as u64; }
+        ci += 1;
+    }
+    out
+}
+
+fn draw_bulk(rng: &mut Prng, tier: Tier) -> Bulk {
+    // one control class below the reader's buffer, the others beyond one and two buffers (thorough: beyond 1 MB, 2 MB)
+    let class = match tier { Tier::Quick => *rng.pick(&[0u8, 1, 1, 1, 2, 2]), Tier::Thorough => *rng.pick(&[0u8, 1, 1, 2, 2, 3, 3, 4]) };
+    let target_bytes = match class { 0 => rng.range(90_000, 170_000), 1 => rng.range(215_000, 380_000), 2 => rng.range(470_000, 720_000), 3 => rng.range(1_050_000, 1_600_000), _ => rng.range(2_100_000, 2_600_000) };
+    Bulk { seed: rng.next_u64(), target_bytes, pad_max: *rng.pick(&[0u32, 3, 11, 24]), mix: rng.below(4) as u8, chunk_bytes: rng.range(60_000, 150_000) }
+}
+const BULK_ONE_IN: u64 = 8;
+/// thousands of requests per worker: whole-frame writes (a byte-wise writer costs one main-loop iteration per
+/// byte; fragmentation of answers is the business of the small plans), at most two workers, room for the scatter
+fn large_plan_pacing(p: &mut HubCfgPlan) {
+    p.knobs.max_command_buffer_size = 16_000_000;
+    p.workers.truncate(2);
+    p.workers2.truncate(2);
+    for w in p.workers.iter_mut().chain(p.workers2.iter_mut()) { w.wq = Quantum::All; }
+    p.client_wq = Quantum::All;
 }
 
 pub fn wrap(p: &HubCfgPlan) -> Value { serde_json::json!({ "hub": p }) }
@@ -201,7 +285,7 @@ fn base_plan(seed: u64, rng: &mut Prng, kind: Kind, family: &str) -> HubCfgPlan 
         workers2: (0..*rng.pick(&[1usize, 2, 3])).map(|_| worker(rng)).collect(),
         client_wq: if rng.below(4) == 0 { Quantum::random(rng) } else { Quantum::All },
         think_ns: *rng.pick(&[0u64, 0, MS]),
-        ops: Value::Array(vec![]), ops_b: Value::Array(vec![]), b_on_a: true, toml: None, real_files: rng.below(10) == 0,
+        ops: Value::Array(vec![]), ops_b: Value::Array(vec![]), b_on_a: true, toml: None, real_files: rng.below(10) == 0, bulk: None,
     }
 }
 
@@ -234,7 +318,13 @@ pub fn gen_c05(seed: u64, tier: Tier) -> Value {
     let len = *rng.pick(&[5usize, 10, 20, max]);
     // only the certificate defect concerns save / replay; a trigger in a quarter of the plans
     let allowed = if rng.below(4) == 0 { "replace_certificate_in_history" } else { "none" };
-    let ops = sanitize(cfggen::gen_history(&mut rng, len, &o), allowed);
+    let mut ops = sanitize(cfggen::gen_history(&mut rng, len, &o), allowed);
+    if !upgrade && rng.below(BULK_ONE_IN) == 0 {
+        p.bulk = Some(draw_bulk(&mut rng, tier));
+        p.family = "hub_saveload_large".into();
+        large_plan_pacing(&mut p);
+        ops.truncate(10);
+    }
     p.ops = cfggen::ops_to_value(&ops);
     wrap(&p)
 }
@@ -285,6 +375,11 @@ pub fn gen_c06(seed: u64, tier: Tier) -> Value {
         _ => (true, cfggen::gen_near_mutation(&mut rng, &o, &mut mem)),
     };
     p.b_on_a = b_on_a;
+    if rng.below(BULK_ONE_IN) == 0 {
+        p.bulk = Some(draw_bulk(&mut rng, tier));
+        p.family = "hub_load_over_large".into();
+        large_plan_pacing(&mut p);
+    }
     p.ops = cfggen::ops_to_value(&sanitize(a, allowed));
     p.ops_b = cfggen::ops_to_value(&sanitize(b, allowed));
     wrap(&p)
@@ -371,6 +466,7 @@ pub fn summarize(p: &HubCfgPlan) -> String {
     let ops = cfggen::ops_from_value(&p.ops).unwrap_or_default();
     let mut s = format!("{} trigger={} w={} buf={}/{} sndbuf={:?} ops=[{}]", p.family, plan_trigger(p), p.workers.len(), p.knobs.command_buffer_size, p.knobs.max_command_buffer_size, p.knobs.worker_sndbuf, cfggen::summarize_ops(&ops));
     if p.kind == Kind::LoadOver { s += &format!(" B={}+[{}]", if p.b_on_a { "A" } else { "empty" }, cfggen::summarize_ops(&cfggen::ops_from_value(&p.ops_b).unwrap_or_default())); }
+    if let Some(b) = &p.bulk { s += &format!(" bulk(target={}B pad<={} mix={} chunk={}B)", b.target_bytes, b.pad_max, b.mix, b.chunk_bytes); }
     if let Some(t) = &p.toml { s += &format!(" toml(entries={} bound={} mutation={:?} twice={}) paces=[{}]", entries_of(&t.cfg), volume_bound(&t.cfg), t.mutation.as_ref().map(|m| m.kind.clone()), t.twice, p.workers.iter().map(|w| w.pace.name()).collect::<Vec<_>>().join(",")); }
     s
 }
@@ -410,6 +506,12 @@ pub fn shrink(p: &HubCfgPlan) -> Vec<Value> {
     for which in ["ops_b", "ops"] {
         let cur = if which == "ops" { &p.ops } else { &p.ops_b };
         for cand in cfggen::shrink_ops(cur).into_iter().take(160) { let mut q = p.clone(); if which == "ops" { q.ops = cand; } else { q.ops_b = cand; } out.push(q); }
+    }
+    if let Some(b) = &p.bulk {
+        { let mut q = p.clone(); q.bulk = None; out.push(q); }
+        if b.target_bytes > 2_000 { for d in [8u64, 2] { let mut q = p.clone(); q.bulk.as_mut().unwrap().target_bytes = b.target_bytes / d; out.push(q); } let mut q = p.clone(); q.bulk.as_mut().unwrap().target_bytes = b.target_bytes * 9 / 10; out.push(q); }
+        if b.pad_max != 0 { let mut q = p.clone(); q.bulk.as_mut().unwrap().pad_max = 0; out.push(q); }
+        if b.mix != 1 { let mut q = p.clone(); q.bulk.as_mut().unwrap().mix = 1; out.push(q); }
     }
     if p.workers.len() > 1 { for i in 0..p.workers.len() { let mut q = p.clone(); q.workers.remove(i); out.push(q); } }
     if p.workers2.len() > 1 { let mut q = p.clone(); q.workers2.truncate(1); out.push(q); }
